@@ -106,14 +106,7 @@ fn tier_from(args: &Args) -> Tier {
 }
 
 /// known findings: lines `known: property=<id> oracle=<oracle> match=<substring of detail> | <text>`
-struct Known {
-    prop: String,
-    oracle: String,
-    needle: String,
-    text: String,
-}
-
-fn load_known(path: Option<&str>) -> Vec<Known> {
+fn load_known(path: Option<&str>) -> Vec<engine::Known> {
     let Some(path) = path else { return vec![] };
     let Ok(text) = std::fs::read_to_string(path) else {
         return vec![];
@@ -122,7 +115,7 @@ fn load_known(path: Option<&str>) -> Vec<Known> {
     for line in text.lines() {
         let Some(rest) = line.strip_prefix("known:") else { continue };
         let (fields, text) = rest.split_once('|').unwrap_or((rest, ""));
-        let mut k = Known {
+        let mut k = engine::Known {
             prop: String::new(),
             oracle: String::new(),
             needle: String::new(),
@@ -165,7 +158,9 @@ fn cmd_check(args: &Args) -> i32 {
     let profile = args.opt("profile").unwrap_or("simdev").to_string();
     let known = load_known(args.opt("known"));
     let replay_dir = args.opt("replay-dir").unwrap_or("/verif/replays").to_string();
+    let _ = engine::KNOWN.set(known.clone());
     let opts = CheckOpts {
+        known: known.clone(),
         replay_dir: replay_dir.clone(),
         found_line: args.flag("found-line"),
         prop,
@@ -232,30 +227,31 @@ fn cmd_check(args: &Args) -> i32 {
         );
         return 2;
     }
-    if res.violations.is_empty() {
+    if res.violations.is_empty() && res.known_hits.is_empty() {
         println!("OK property={} held on everything explored", prop.id());
+        return 0;
+    }
+    // listed findings that were met: one line each, they do not fail the check
+    for (k, n) in &res.known_hits {
+        println!(
+            "KNOWN-FINDING: property={} oracle={} {} (met in {} runs)",
+            prop.id(),
+            known[*k].oracle,
+            known[*k].text,
+            n
+        );
+    }
+    if res.violations.is_empty() {
+        println!(
+            "OK property={} held on everything explored (apart from the listed known findings)",
+            prop.id()
+        );
         return 0;
     }
     // report the violation with the smallest run index (deterministic), minimised
     let mut exit = 0;
-    let mut reported_known: Vec<String> = vec![];
     for f in &res.violations {
         let viol = f.eval.violation.as_ref().unwrap();
-        if let Some(k) = known.iter().find(|k| {
-            k.prop == prop.id() && k.oracle == viol.oracle && viol.detail.contains(&k.needle)
-        }) {
-            let line = format!(
-                "KNOWN-FINDING: property={} oracle={} {}",
-                prop.id(),
-                k.oracle,
-                k.text
-            );
-            if !reported_known.contains(&line) {
-                println!("{line}");
-                reported_known.push(line);
-            }
-            continue;
-        }
         let base = f.eval.violating_case.as_ref().unwrap_or(&f.case);
         let (min, shrink_runs) = if args.flag("no-shrink") {
             (base.clone(), 0)
